@@ -815,3 +815,89 @@ def run(ctx, rep):  # noqa: F811
     k2 = common.check_swapped_args(ctx, rep, "R15.10", lambda g: g.module.name.startswith("cobyqa.subsolvers"))
     if k2 < 8:
         raise AnalysisError("call sites of the subproblem solvers not found")
+
+
+# ---------------------------------------------------------------------------
+# sibling agreement of the three truncated-CG solvers (cross-check siblings)
+def _slot_texts(f):
+    """{(target root name, occurrence index): normalised statement text}"""
+    counts = {}
+    out = {}
+    for node in sorted([n for n in ast.walk(f.node) if isinstance(n, (ast.Assign, ast.AugAssign))], key=lambda n: (n.lineno, n.col_offset)):
+        tgt = node.targets[0] if isinstance(node, ast.Assign) else node.target
+        base = tgt
+        while isinstance(base, ast.Subscript):
+            base = base.value
+        if not isinstance(base, ast.Name):
+            continue
+        k = counts.get(base.id, 0)
+        counts[base.id] = k + 1
+        out[(base.id, k)] = (norm(node), node)
+    return out
+
+
+def _edit_small(a, b):
+    """the two statement texts differ by at most two tokens"""
+    ta, tb = _ID.findall(a) + _re.findall(r"[-+*/<>=|&~]+", a), _ID.findall(b) + _re.findall(r"[-+*/<>=|&~]+", b)
+    if abs(len(ta) - len(tb)) > 1:
+        return False
+    from collections import Counter
+    d = (Counter(ta) - Counter(tb)) + (Counter(tb) - Counter(ta))
+    return 0 < sum(d.values()) <= 2
+
+
+# slots in which the siblings legitimately differ (confirmed by reading; one
+# line of reason each)
+SIBLING_EXCEPTIONS = {
+    "alpha_tr": "the normal solver works on (x, slack) vectors: _alpha_tr(step, sd[:n], ..) and a second limit for the slacks",
+    "grad": "the normal solver recomputes the gradient of the least-squares objective instead of updating it",
+    "sd": "projected vs. masked directions",
+    "step": "masked vs. clipped updates",
+    "resid": "the normal solver's residual includes the slack gradient",
+    "i_xl": "the normal solver indexes sd[:n]", "i_xu": "the normal solver indexes sd[:n]",
+    "all_alpha_xl": "sd[:n]", "all_alpha_xu": "sd[:n]",
+    "alpha": "different sets of limiting step lengths", "alpha_bd": "slack bound in the normal solver",
+    "hess_sd": "explicit Hessian of the least-squares objective in the normal solver",
+    "free_xl": "gradient restricted to x in the normal solver", "free_xu": "gradient restricted to x in the normal solver", "free_ub": "slack formulation",
+    "n_samples": "same", "k": "same", "reduct": "same",
+}
+
+
+def r1511(ctx, rep):
+    fs = [ctx.func(q) for q in PUBLIC[:3]]
+    slots = [_slot_texts(f) for f in fs]
+    n = 0
+    for key in sorted(set().union(*[set(s) for s in slots])):
+        name, occ = key
+        have = [(i, s[key]) for i, s in enumerate(slots) if key in s]
+        if len(have) < 3 or name in SIBLING_EXCEPTIONS:
+            continue
+        texts = [h[1][0] for h in have]
+        # two agree exactly, the third differs by a small edit
+        for i in range(3):
+            others = [texts[j] for j in range(3) if j != i]
+            if others[0] == others[1] and texts[i] != others[0]:
+                n += 1
+                f = fs[have[i][0]]
+                node = have[i][1][1]
+                if _edit_small(texts[i], others[0]):
+                    rep.bad("R15.11", f"{f.local}:{node.lineno} {name}#{occ}")
+                    rep.finding("R15.11", f, texts[i][:140], node.lineno,
+                                f"this statement differs from the identical statement in the two sibling solvers ({fs[(have[i][0] + 1) % 3].name}, {fs[(have[i][0] + 2) % 3].name}): "
+                                f"`{others[0][:100]}` - the three solvers share this step of the boundary improvement / bound bookkeeping")
+                break
+        else:
+            if texts[0] == texts[1] == texts[2]:
+                n += 1
+                rep.ok("R15.11", f"`{texts[0][:70]}` identical in the three solvers")
+    if n < 10:
+        raise AnalysisError(f"only {n} shared statements found in the three truncated-CG solvers (floor 10)")
+
+
+_old_run2 = run
+
+
+def run(ctx, rep):  # noqa: F811
+    _old_run2(ctx, rep)
+    rep.rule("R15.11", "sibling agreement: statements shared by the three truncated-CG solvers are identical (a statement that two siblings spell identically and the third differs from by a small edit is reported)")
+    r1511(ctx, rep)
